@@ -77,7 +77,7 @@ func (mu *multiUseEntry) runConsumer(itera iterator.Producer[Value], done func(e
 		used = true
 		return itera
 	}))
-	value, err := mu.fu(st, nil)
+	value, err := callRecover(mu.fu, st, nil)
 	if innerErr != nil {
 		done(innerErr)
 		return
